@@ -742,6 +742,55 @@ theorem affine_le_of_endpoints {c r' r t u x : Rat} (htu : t < u) (h1 : c ≤ r 
   have := (mul_nonneg_iff_of_pos_left (sub_pos.2 htu)).1 hn
   linarith
 
+/-- `soliCond` with tolerance `eps ≥ 0`: every comparison against the nominal line `r * x` is
+relaxed by `+ eps` on the right-hand side (`ic[0] ≤ 0 + eps`, `ic[k] ≤ r t_{k-1} + eps`,
+`ic[k] + r_k (t_k - t_{k-1}) ≤ r t_k + eps`).  The sign condition `0 ≤ r` is NOT relaxed (with a
+negative nominal rate `r * x` is unbounded below on piece `0`). -/
+def soliCondEps (s : Schedule) (eps : Rat) : Bool :=
+  WF s && decide (s.rates.length = 1) && decide (0 ≤ eps) && decide (ic s 0 ≤ 0 + eps) &&
+  decide (0 ≤ topRate s) &&
+  (List.range ((inner s).length + 1)).all fun k => decide (k = 0) ||
+    (decide (ic s k ≤ topRate s * thr s (k - 1) + eps) &&
+      if k < (inner s).length then
+        decide (ic s k + rate s 0 k * (thr s k - thr s (k - 1)) ≤ topRate s * thr s k + eps)
+      else true)
+
+structure SoliEpsProp (s : Schedule) (eps : Rat) : Prop where
+  wf : WFProp s
+  deg : s.rates.length = 1
+  eps_nonneg : 0 ≤ eps
+  ic0 : ic s 0 ≤ 0 + eps
+  top_nonneg : 0 ≤ topRate s
+  lower : ∀ k, 1 ≤ k → k ≤ (inner s).length → ic s k ≤ topRate s * thr s (k - 1) + eps
+  upper : ∀ k, 1 ≤ k → k < (inner s).length →
+    ic s k + rate s 0 k * (thr s k - thr s (k - 1)) ≤ topRate s * thr s k + eps
+
+theorem soliCondEps_iff (s : Schedule) (eps : Rat) :
+    soliCondEps s eps = true ↔ SoliEpsProp s eps := by
+  unfold soliCondEps
+  simp only [Bool.and_eq_true, decide_eq_true_eq, List.all_eq_true, List.mem_range, WF_iff,
+    Bool.or_eq_true]
+  constructor
+  · rintro ⟨⟨⟨⟨⟨h1, h2⟩, he⟩, h3⟩, h4⟩, h5⟩
+    refine ⟨h1, h2, he, h3, h4, fun k hk1 hk => ?_, fun k hk1 hk => ?_⟩
+    · exact ((h5 k (by omega)).resolve_left (by omega)).1
+    · have := ((h5 k (by omega)).resolve_left (by omega)).2
+      simpa [hk] using this
+  · rintro ⟨h1, h2, he, h3, h4, h5, h6⟩
+    refine ⟨⟨⟨⟨⟨h1, h2⟩, he⟩, h3⟩, h4⟩, fun k hk => ?_⟩
+    by_cases hk0 : k = 0
+    · exact Or.inl hk0
+    · refine Or.inr ⟨h5 k (by omega) (by omega), ?_⟩
+      by_cases hkl : k < (inner s).length
+      · simpa [hkl] using h6 k (by omega) hkl
+      · simp [hkl]
+
+theorem affine_le_of_endpoints_eps {c r' r t u x eps : Rat} (htu : t < u) (h1 : c ≤ r * t + eps)
+    (h2 : c + r' * (u - t) ≤ r * u + eps) (htx : t ≤ x) (hxu : x ≤ u) :
+    c + r' * (x - t) ≤ r * x + eps := by
+  have := affine_le_of_endpoints (c := c - eps) (r' := r') (r := r) htu (by linarith) (by linarith) htx hxu
+  linarith
+
 /-! ## parser -/
 
 theorem mapM_ok {α β : Type} (f : α → Except Err β) : ∀ (l : List α) (r : List β),
